@@ -253,9 +253,10 @@ else:
 u, v = ufl.TrialFunction(V), ufl.TestFunction(V)
 a = k * f * g * ufl.inner(ufl.grad(u), ufl.grad(v)) * ufl.dx + f * u * v * ufl.ds(3)
 p = ffcx.options.get_options({})
-tag = jit._compute_option_signature(p) + jit._compilation_signature([], False)
+tag = jit._compute_option_signature(p) + jit._compilation_signature(["-O1", "-g0", "-Wall", "-fno-math-errno"], False)
 mod = "libffcx_forms_" + ffcx.naming.compute_signature([a], tag)
-e = (f * ufl.grad(g), np.array([[0.25, 0.5], [0.1, 0.2]]))
+k2 = ufl.Constant(m)
+e = (k * f * ufl.grad(g) + k2 * g * ufl.grad(f), np.array([[0.25, 0.5], [0.1, 0.2]]))
 out = {"module": mod, "form": ffcx.naming.form_name(a, 0, mod), "integral": ffcx.naming.integral_name(a, "cell", 0, ("otherwise",), mod),
        "expr_module": "libffcx_expressions_" + ffcx.naming.compute_signature([e], tag), "expr": ffcx.naming.expression_name(e, "x")}
 print(json.dumps(out))
@@ -267,11 +268,22 @@ def check_stability(chk, tier):
     seeds, UFL counter offsets and creation orders."""
     import json
 
+    from concurrent.futures import ThreadPoolExecutor
+
     runs = []
-    cfgs = [("0", 0, "a"), ("1", 7, "a"), ("12345", 3, "b")] if tier == "quick" else [(str(s), o, w) for s in (0, 1, 99, 12345) for o in (0, 5, 31) for w in ("a", "b")]
-    for seed, off, order in cfgs:
-        r = subprocess.run(["/venv/bin/python", "-c", STAB, os.environ.get("VERIF_REPO", "/repo"), str(off), order], capture_output=True, text=True,
-                           env=dict(os.environ, PYTHONHASHSEED=seed, PYTHONPATH=""))
+    # counter offsets include the values around which the decimal rendering of consecutive UFL counts changes
+    # length (8,9,10 / 98,99,100 / 998,999): a name may depend on counts only through renderings or comparisons of them
+    cfgs = [("0", 0, "a"), ("1", 7, "a"), ("12345", 3, "b"), ("0", 8, "a"), ("7", 9, "a"), ("0", 10, "b"), ("3", 98, "a"), ("0", 99, "a"), ("0", 999, "a")] if tier == "quick" else \
+        [(str(s), o, w) for s in (0, 1, 99, 12345) for o in (0, 5, 8, 9, 10, 31, 98, 99, 100, 998, 999) for w in ("a", "b")]
+
+    def one(cfg):
+        seed, off, order = cfg
+        return subprocess.run(["/venv/bin/python", "-c", STAB, os.environ.get("VERIF_REPO", "/repo"), str(off), order], capture_output=True, text=True,
+                              env=dict(os.environ, PYTHONHASHSEED=seed, PYTHONPATH=""))
+
+    with ThreadPoolExecutor(12) as ex:
+        outs = list(ex.map(one, cfgs))
+    for r in outs:
         if r.returncode:
             chk.harness_error(f"stability subprocess failed: {r.stderr[-300:]}")
             return
